@@ -30,6 +30,11 @@ def quiet():
 # ------------------------------------------------------------------ real-code adapters
 
 
+def purpose_of(remote_node_id, epr_socket_id):
+    """purpose id the fake network stack assigns to (remote node, local EPR socket id)"""
+    return remote_node_id * 1000 + epr_socket_id
+
+
 class RecordingStack(BaseNetworkStack):
     def __init__(self):
         self.requests = []
@@ -41,7 +46,8 @@ class RecordingStack(BaseNetworkStack):
         pass
 
     def get_purpose_id(self, remote_node_id, epr_socket_id):
-        return epr_socket_id
+        # depends on BOTH the remote node and the local socket id (injective per remote node)
+        return purpose_of(remote_node_id, epr_socket_id)
 
 
 class SteppingExecutor(Executor):
@@ -129,7 +135,8 @@ class SubProg:
         self.set(4, res)
         qreg = self.R(2) if q is not None else "C15"
         self.emit("create_epr %s %s %s %s %s" % (self.R(0), self.R(1), qreg, self.R(3), self.R(4)),
-                  {"a": "create", "remote": req.remote, "purpose": req.purpose, "isK": req.ty == "K",
+                  {"a": "create", "remote": req.remote, "purpose": purpose_of(req.remote, req.purpose),
+                   "isK": req.ty == "K",
                    "number": req.number, "q": q, "res": res})
 
     def op_recv(self, req, q, res):
@@ -140,7 +147,8 @@ class SubProg:
         self.set(4, res)
         qreg = self.R(2) if q is not None else "C15"
         self.emit("recv_epr %s %s %s %s" % (self.R(0), self.R(1), qreg, self.R(4)),
-                  {"a": "recv", "remote": req.remote, "purpose": req.purpose, "q": q, "res": res})
+                  {"a": "recv", "remote": req.remote, "purpose": purpose_of(req.remote, req.purpose), "q": q,
+                   "res": res})
 
     def op_wait(self, kind, addr, lo, hi):
         if kind == "single":
@@ -166,8 +174,32 @@ class RespSpec:
         self.bell = rng.randrange(4)
         self.outcome = rng.randrange(2)
         self.basis = rng.randrange(5)
+        self.form10 = False      # deliver in qlink-interface 1.0 form (converted by response_from_qlink_1_0)
+        self.bellenum = False    # 1.0 form: bell_state as a qlink_interface.BellState member instead of an int
+
+    def real10(self):
+        """the same response as the link layer's qlink-interface 1.0 object"""
+        import qlink_interface as ql10
+        bell = ql10.BellState(self.bell) if self.bellenum else self.bell
+        if self.ty == "K":
+            return ql10.ResCreateAndKeep(create_id=self.uid, directionality_flag=self.dir,
+                                         sequence_number=self.seq, purpose_id=self.purpose,
+                                         remote_node_id=self.remote, goodness=self.goodness, bell_state=bell,
+                                         logical_qubit_id=self.phys, time_of_goodness=self.gtime)
+        return ql10.ResMeasureDirectly(create_id=self.uid, directionality_flag=self.dir,
+                                       sequence_number=self.seq, purpose_id=self.purpose,
+                                       remote_node_id=self.remote, goodness=self.goodness, bell_state=bell,
+                                       measurement_outcome=self.outcome,
+                                       measurement_basis=ql10.MeasurementBasis(self.basis))
 
     def real(self):
+        """what is handed to the executor"""
+        if getattr(self, "form10", False):
+            return self.real10()
+        return self.native()
+
+    def native(self):
+        """the response as a qlink_compat tuple (reference for the oracles)"""
         if self.ty == "K":
             return LinkLayerOKTypeK(type=ReturnType.OK_K, create_id=self.uid, logical_qubit_id=self.phys,
                                     directionality_flag=self.dir, sequence_number=self.seq,
@@ -330,7 +362,10 @@ def gen_scenario(rng, max_reqs=3, max_pairs=3, small=False, malformed=False, mix
             rty = ty
             if malformed and rng.random() < 0.15:
                 rty = "M" if ty == "K" else "K"
-            sc.resps.append(RespSpec(uid, rty, remote, purpose, 1 if role == "recv" else 0, 100 + uid, rng))
+            sc.resps.append(RespSpec(uid, rty, remote, purpose_of(remote, purpose), 1 if role == "recv" else 0,
+                                     100 + uid, rng))
+            sc.resps[-1].form10 = rng.random() < 0.4
+            sc.resps[-1].bellenum = rng.random() < 0.5
             uid += 1
     for sp in sc.subs:
         for req in sp.reqs:
@@ -343,7 +378,8 @@ def gen_scenario(rng, max_reqs=3, max_pairs=3, small=False, malformed=False, mix
         same = [r.ty for sp in sc.subs for r in sp.reqs
                 if (r.remote, r.purpose, r.role) == (remote, purpose, "recv" if dirflag else "create")]
         rty = rng.choice(same) if same and not malformed else rng.choice(["K", "M"])
-        sc.resps.append(RespSpec(uid, rty, remote, purpose, dirflag, 100 + uid, rng))
+        sc.resps.append(RespSpec(uid, rty, remote, purpose_of(remote, purpose), dirflag, 100 + uid, rng))
+        sc.resps[-1].form10 = rng.random() < 0.4
         uid += 1
     if malformed and rng.random() < 0.3 and len(sc.resps) > 1:
         sc.resps[-1].phys = sc.resps[0].phys    # physical id not fresh
@@ -795,6 +831,8 @@ import qlink_interface as qlink_1_0  # noqa: E402
 
 NODE_NAME = "verif-node"
 REMOTE_NAME = "verif-remote"
+REMOTE2_NAME = "verif-remote2"
+REMOTE_NAMES = {1: REMOTE_NAME, 2: REMOTE2_NAME}
 
 
 class InProcConnection(BaseNetQASMConnection):
@@ -840,7 +878,7 @@ def fresh_world():
     SharedMemoryManager.reset_memories()
     BaseNetQASMConnection._app_ids.clear()
     BaseNetQASMConnection._app_names.clear()
-    DebugConnection.node_ids = {NODE_NAME: NODE_ID, REMOTE_NAME: 1}
+    DebugConnection.node_ids = {NODE_NAME: NODE_ID, REMOTE_NAME: 1, REMOTE2_NAME: 2}
     ex = SteppingExecutor(name=NODE_NAME)
     ex.network_stack = RecordingStack()
     return ex
@@ -853,7 +891,7 @@ def gen_request_case(rng):
     """a random call of the EPRSocket create API (+ the matching parameter record for the model)"""
     tp = rng.choice(["K", "M", "R"])
     number = rng.choice([1, 1, 2, 3, rng.randint(1, 4)])
-    c = {"tp": tp, "role": "create", "number": number, "socket": rng.randrange(4),
+    c = {"tp": tp, "role": "create", "number": number, "socket": rng.randrange(4), "remote": rng.choice([1, 2]),
          "remote_socket": rng.randrange(4),
          "time_unit": rng.randrange(3), "max_time": rng.choice([0, 0, 1, 7, rng.randrange(1000)]),
          "rbl": None, "rbr": None, "rotL": [0, 0, 0], "rotR": [0, 0, 0], "basisL": None, "basisR": None,
@@ -886,7 +924,8 @@ def model_params(c):
         rotL = list(BASIS_ROT[c["basisL"]])
     if c["basisR"] is not None:
         rotR = list(BASIS_ROT[c["basisR"]])
-    return {"tp": {"K": 0, "M": 1, "R": 2}[c["tp"]], "remote": 1, "purpose": c["socket"],
+    return {"tp": {"K": 0, "M": 1, "R": 2}[c["tp"]], "remote": c.get("remote", 1),
+            "purpose": purpose_of(c.get("remote", 1), c["socket"]),
             "number": c["number"], "timeUnit": c["time_unit"], "maxTime": c["max_time"],
             "rbl": c["rbl"], "rbr": c["rbr"], "rotL": rotL, "rotR": rotR}
 
@@ -915,11 +954,15 @@ def make_responses(c, rng, role):
     keep = c["tp"] == "K" or (c["tp"] == "R" and role == "recv")
     out = []
     for k in range(c["number"]):
-        r = RespSpec(k, "K" if keep else "M", 1, c["socket"], 1 if role == "recv" else 0, 50 + k, rng)
+        rem = c.get("remote", 1)
+        r = RespSpec(k, "K" if keep else "M", rem, purpose_of(rem, c["socket"]), 1 if role == "recv" else 0,
+                     50 + k, rng)
         r.seq = rng.randrange(1 << 16)
         r.goodness = rng.randrange(1 << 20)
         r.gtime = rng.randrange(1 << 20)
         r.uid = rng.randrange(1 << 16)
+        r.form10 = rng.random() < 0.4
+        r.bellenum = rng.random() < 0.5
         out.append(r)
     return out
 
@@ -937,7 +980,8 @@ def run_sdk_case(c, rng, role="create"):
         ex_._handle_epr_response(todo.pop(0).real())
         return True
 
-    sock = EPRSocket(REMOTE_NAME, epr_socket_id=c["socket"], remote_epr_socket_id=c["remote_socket"])
+    sock = EPRSocket(REMOTE_NAMES[c.get("remote", 1)], epr_socket_id=c["socket"],
+                     remote_epr_socket_id=c["remote_socket"])
     conn = InProcConnection(ex, responder, epr_sockets=[sock], max_qubits=5)
     tu = TimeUnit(c["time_unit"])
     kw = {}
@@ -1051,14 +1095,16 @@ def gen_program_case(rng):
     nresp = 0
     for c in calls:
         for _ in range(c["number"]):
-            perkey.setdefault("%d/%s" % (c["socket"], c["role"]), []).append(nresp)
+            perkey.setdefault("%d/%s" % (c["socket"], c["role"]), []).append(nresp)   # socket = index
             nresp += 1
     queues = {k: list(v) for k, v in perkey.items()}
     order = []
     while any(queues.values()):
         k = rng.choice([k for k, v in queues.items() if v])
         order.append(queues[k].pop(0))
-    return {"calls": calls, "order": order, "early": rng.choice([0, 0, 1, 2, 3]),
+    # the two EPR sockets: [remote node, local socket id]; equal local ids towards two remote nodes included
+    socks = rng.choice([[[1, 0], [2, 0]], [[1, 0], [2, 0]], [[1, 1], [2, 1]], [[1, 0], [2, 1]], [[1, 0], [1, 1]]])
+    return {"calls": calls, "socks": socks, "order": order, "early": rng.choice([0, 0, 1, 2, 3]),
             "batches": [rng.choice([1, 1, 2, 3]) for _ in range(nresp + 2)], "rseed": rng.randrange(1 << 30)}
 
 
@@ -1069,17 +1115,21 @@ def run_program_case(pc):
     rrng = _random.Random(pc["rseed"])
     ex = fresh_world()
     calls = pc["calls"]
+    sockdefs = pc.get("socks", [[1, 0], [1, 1]])
     # build the responses: index -> RespSpec, in per-key request order
     resps = {}
     idx = 0
     for c in calls:
         keep = c["tp"] == "K"
         for _ in range(c["number"]):
-            r = RespSpec(idx, "K" if keep else "M", 1, c["socket"], 1 if c["role"] == "recv" else 0, 60 + idx,
-                         rrng)
+            rem, lid = sockdefs[c["socket"]]
+            r = RespSpec(idx, "K" if keep else "M", rem, purpose_of(rem, lid), 1 if c["role"] == "recv" else 0,
+                         60 + idx, rrng)
             r.seq = rrng.randrange(1 << 16)
             r.goodness = rrng.randrange(1 << 20)
             r.gtime = rrng.randrange(1 << 20)
+            r.form10 = rrng.random() < 0.4
+            r.bellenum = rrng.random() < 0.5
             resps[idx] = r
             idx += 1
     todo = list(pc["order"])
@@ -1095,7 +1145,7 @@ def run_program_case(pc):
     def responder(ex_):
         return deliver(batches.pop(0) if batches else 1)
 
-    socks = [EPRSocket(REMOTE_NAME, epr_socket_id=s, remote_epr_socket_id=s) for s in range(2)]
+    socks = [EPRSocket(REMOTE_NAMES[rem], epr_socket_id=lid, remote_epr_socket_id=lid) for rem, lid in sockdefs]
     conn = InProcConnection(ex, responder, epr_sockets=socks, max_qubits=8)
     out = {"stuck": False, "raised": None, "checks": [], "completed": 0}
     results = []
@@ -1127,10 +1177,15 @@ def run_program_case(pc):
         return out
     if out["stuck"]:
         return out
+    # request side: socket and remote node ids are exactly the ones the network stack receives
+    want_reqs = [(sockdefs[c["socket"]][0], purpose_of(*sockdefs[c["socket"]]), c["number"])
+                 for c in calls if c["role"] == "create"]
+    got_reqs = [(r.remote_node_id, r.purpose_id, r.number) for r in ex.network_stack.requests]
+    out["checks"].append(("(remote node, purpose, pairs) of the requests the stack received", got_reqs, want_reqs))
     for c, first, qubits, handles in results:
         out["completed"] += 1
         for i in range(c["number"]):
-            want = resps[first + i].real()       # responses were numbered in per-key request order
+            want = resps[first + i].native()     # responses were numbered in per-key request order
 
             def fld(name):
                 v = getattr(want, name)
@@ -1217,13 +1272,14 @@ def run_hw_case(c, pair_of_handle=None):
     SharedMemoryManager.reset_memories()
     BaseNetQASMConnection._app_ids.clear()
     BaseNetQASMConnection._app_names.clear()
-    DebugConnection.node_ids = {NODE_NAME: NODE_ID, REMOTE_NAME: 1}
+    DebugConnection.node_ids = {NODE_NAME: NODE_ID, REMOTE_NAME: 1, REMOTE2_NAME: 2}
     ex = TokenExecutor(name=NODE_NAME)
     ex.network_stack = RecordingStack()
     keep = c["tp"] == "K"
     resps = []
     for k in range(c["number"]):
-        r = RespSpec(k, "K" if keep else "M", 1, 0, 1 if c["role"] == "recv" else 0, PHYS0 + k, rrng)
+        r = RespSpec(k, "K" if keep else "M", 1, purpose_of(1, 0), 1 if c["role"] == "recv" else 0, PHYS0 + k, rrng)
+        r.form10 = rrng.random() < 0.3
         r.seq = 100 + k
         r.goodness = rrng.randrange(1 << 20)
         r.gtime = rrng.randrange(1 << 20)
@@ -1274,7 +1330,7 @@ def run_hw_case(c, pair_of_handle=None):
         return out
 
     def fld(r, name):
-        v = getattr(r.real(), name)
+        v = getattr(r.native(), name)
         return v.value if hasattr(v, "value") else v
 
     spec = ({"qubit_id": "logical_qubit_id", "remote_node_id": "remote_node_id",
